@@ -49,6 +49,7 @@ class Harness:
 
         h = self
         self.events: list[str] = []
+        self.lid: dict[str, int] = {}      # line / node id -> ordinal used on the wire
         self.idx: dict[str, int] = {}      # node id -> model index
         self.nodes: list[Any] = []
         tags = create_system_tags()
@@ -106,10 +107,15 @@ class Harness:
             return orig(instance, update_node)
         tr.mark_completed = mark_completed
 
+    def line_id(self, real_id: str) -> int:
+        if real_id not in self.lid:
+            self.lid[real_id] = len(self.lid)
+        return self.lid[real_id]
+
     def _index_program(self):
         self.nodes = []
         self.idx = {}
-        for n in self.mm.program.get_all_nodes():
+        for n in self.interp._program.get_all_nodes():
             self.idx[n.id] = len(self.nodes)
             self.nodes.append(n)
 
@@ -141,7 +147,7 @@ class Harness:
         self.events.append(f"cmd:{node_idx}:{name}")
 
     # -- program description for the model
-    def node_lines(self, start: int = 0) -> list[str]:
+    def node_lines(self, start: int = 0, prefix: str = "") -> list[str]:
         import openpectus.lang.model.ast as p
         out = []
         for k in range(start, len(self.nodes)):
@@ -149,8 +155,13 @@ class Harness:
             parent = self.idx[n.parent.id] if n.parent is not None else -1
             thr = "-" if n.threshold is None else frac(n.threshold)
             in_prog = 0 if self._is_injected(n) else 1
-            out.append("\t".join(["node", str(k), str(parent), self._kind(n, p), thr, enc(n.key_path), str(in_prog)]))
+            sig = f"{type(n).__name__}|{n.arguments}|{n.threshold}"
+            out.append("\t".join([prefix + "node", str(k), str(parent), self._kind(n, p), thr, enc(n.key_path),
+                                  str(in_prog), str(self.line_id(n.id)), enc(sig)]))
         return out
+
+    def content_lines(self, prefix: str = "") -> list[str]:
+        return [f"{prefix}line\t{self.line_id(ln.id)}\t{enc(ln.content)}" for ln in self.mm._method.lines]
 
     def _is_injected(self, n) -> bool:
         import openpectus.lang.model.ast as p
@@ -249,7 +260,7 @@ class Harness:
             s += f":{getattr(n, 'child_index', 0)}:{getattr(n, 'run_count', 0)}:" \
                  f"{getattr(n, 'run_started_count', 0)}:{getattr(n, 'run_completed_count', 0)}"
             fl.append(s)
-        macros = ",".join(f"{enc(k)}={self.idx.get(v.id, -1)}" for k, v in self.mm.program.macros.items())
+        macros = ",".join(f"{enc(k)}={self.idx.get(v.id, -1)}" for k, v in self.interp._program.macros.items())
         return "|".join([f"err={err}", f"marks={enc(mark)}", f"block={'-' if block in (None, '') else enc(str(block))}",
                          f"base={enc(base)}", f"imap={imap}", f"macros={macros}", "ev=" + " ".join(self.events),
                          "fl=" + " ".join(fl)])
@@ -273,6 +284,38 @@ class Harness:
             return "ok"
         except ValueError:
             return "rejected"
+
+    def edit(self, lines: list[tuple[str, str]]) -> tuple[list[str], str]:
+        """`Engine.set_method` while the run is started. `lines` = [(line id, content)].
+        Returns (definition lines of the new method for the model + the op line, answer)."""
+        from openpectus.lang.exec.errors import MethodEditError
+        Mdl = self.Mdl
+        method = Mdl.Method(lines=[Mdl.MethodLine(id=i, content=c) for i, c in lines], version=0)
+        try:
+            if self.mm.program_is_started:
+                self.mm.merge_method(method)
+                ans = "merged"
+            else:
+                self.mm.set_method(method)
+                ans = "set"
+        except MethodEditError:
+            ans = "rejected"
+        # what the method would be, for the model (parsed independently of the outcome)
+        if ans != "rejected":
+            self._hook_tracking()
+            self._index_program()
+            defs = self.node_lines(prefix="new") + self.content_lines(prefix="new")
+        else:
+            probe = Harness.__new__(Harness)
+            probe.__dict__.update(lid=self.lid, idx={}, nodes=[])
+            prog = self.mm._parse(self.mm._to_parser_method(method))
+            self.mm._apply_analysis(prog)
+            for n in prog.get_all_nodes():
+                probe.idx[n.id] = len(probe.nodes)
+                probe.nodes.append(n)
+            defs = Harness.node_lines(probe, prefix="new") + \
+                [f"newline\t{self.line_id(i)}\t{enc(c)}" for i, c in lines]
+        return defs + ["edit"], ans
 
     def inject(self, pcode: str) -> tuple[list[str], str]:
         """Returns (node definition lines for the model, op line)."""
